@@ -74,7 +74,15 @@ Mat(p, m, v, root) ==
 Materialise(p) ==
     LET pl == ByName(p.pipelines, p.top.callee)
         r == Run(p)
-    IN VObj([x \in DOMAIN r.outs |-> LET o == Lookup(pl.outs, x) IN Mat(p, Member(x, o.t, o.outname), r.outs[x], "")])
+        \* a mapped top-level call: the files of fork k go below outs/k (the index is not padded)
+        fork(k) == IF IsNull(r.outs[k]) THEN r.outs[k]
+                   ELSE VObj([x \in DOMAIN r.outs[k].o |->
+                                LET o == Lookup(pl.outs, x) IN Mat(p, Member(x, o.t, o.outname), r.outs[k].o[x], k)])
+    IN IF p.top.mode = "none"
+       THEN VObj([x \in DOMAIN r.outs |-> LET o == Lookup(pl.outs, x) IN Mat(p, Member(x, o.t, o.outname), r.outs[x], "")])
+       ELSE IF IsNull(r.topval) THEN r.topval
+       ELSE IF p.top.mode = "array" THEN VArr([i \in DOMAIN r.topval.a |-> fork(ToString(i - 1))])
+       ELSE VObj([k \in DOMAIN r.outs |-> IF LegalName(k) THEN fork(k) ELSE [k |-> "any"]])
 
 (* no two files are sent to the same place *)
 RECURSIVE Moved(_)
